@@ -10,17 +10,20 @@ import (
 	"github.com/orda-io/orda/client/pkg/model"
 	"github.com/orda-io/orda/client/pkg/orda"
 	"google.golang.org/grpc"
+	"google.golang.org/grpc/codes"
+	"google.golang.org/grpc/status"
 	"google.golang.org/protobuf/proto"
 	"vh/crdt"
 )
 
 // RPCCall is one call seen by the grpc front of the bed.
 type RPCCall struct {
-	Seq    int64
-	Method string
-	CUID   string
-	NOps   int // operations carried by a push-pull request
-	Err    bool
+	Seq     int64
+	Method  string
+	CUID    string
+	NOps    int // operations carried by a push-pull request
+	Err     bool
+	Dropped bool // served, but the response was withheld (the client saw an RPC error)
 }
 
 // RPC is a real grpc listener implementing OrdaServiceServer in front of the bed's
@@ -35,6 +38,8 @@ type RPC struct {
 	calls    []RPCCall
 	// Drop decides whether the response of a push-pull is dropped (the client sees an RPC error).
 	Drop func(req *model.PushPullMessage) bool
+	// RespDelay holds the response of a served push-pull back for the returned duration.
+	RespDelay func(req *model.PushPullMessage) time.Duration
 	// OnRequest sees every push-pull request before it is served (boundary ledger).
 	OnRequest func(req *model.PushPullMessage)
 	// Mangle may reorder the packs of a response (the service collects them in completion
@@ -46,6 +51,13 @@ type RPC struct {
 func (r *RPC) SetTaps(onReq func(*model.PushPullMessage), mangle func(*model.PushPullMessage)) {
 	r.mu.Lock()
 	r.OnRequest, r.Mangle = onReq, mangle
+	r.mu.Unlock()
+}
+
+// SetFaults installs the response-loss and response-delay decisions (nil clears them).
+func (r *RPC) SetFaults(drop func(*model.PushPullMessage) bool, delay func(*model.PushPullMessage) time.Duration) {
+	r.mu.Lock()
+	r.Drop, r.RespDelay = drop, delay
 	r.mu.Unlock()
 }
 
@@ -101,6 +113,18 @@ func (r *RPC) ProcessPushPull(ctx context.Context, in *model.PushPullMessage) (*
 	out, err := r.b.Svc.ProcessPushPull(ctx, proto.Clone(in).(*model.PushPullMessage))
 	if err == nil && out != nil && mangle != nil {
 		mangle(out)
+	}
+	r.mu.Lock()
+	drop, delay := r.Drop, r.RespDelay
+	r.mu.Unlock()
+	if delay != nil {
+		if d := delay(in); d > 0 {
+			time.Sleep(d) // the request has been served; its response is still on the way
+		}
+	}
+	if err == nil && drop != nil && drop(in) {
+		r.record(RPCCall{Method: "ProcessPushPull", CUID: in.Cuid, NOps: n, Err: true, Dropped: true})
+		return nil, status.Error(codes.Unavailable, "response lost (injected)")
 	}
 	r.record(RPCCall{Method: "ProcessPushPull", CUID: in.Cuid, NOps: n, Err: err != nil})
 	return out, err
